@@ -138,7 +138,11 @@ INVALID = {
 # section type only; it has no fixed expected values
 VALID["epoch"] = [("e1", None), ("e2", None)]
 INVALID["epoch"] = []
-DATATYPES = sorted(d for d in VALID if d != "epoch")
+# 'zcvonly.int': integer under a name that only C12's own registry object
+# knows (a registry is whatever offers get())
+VALID["zcvonly.int"] = VALID["integer"]
+INVALID["zcvonly.int"] = INVALID["integer"]
+DATATYPES = sorted(d for d in VALID if d not in ("epoch", "zcvonly.int"))
 # values that only a schema default can hold (a configuration line cannot
 # contain a newline); <default> content is stripped, inner text kept
 DEFAULT_EXTRA = {
